@@ -65,6 +65,7 @@ type detail struct {
 	Desc    string           `json:"desc"`
 	Input   string           `json:"input_b64,omitempty"`
 	History *genfrag.History `json:"history,omitempty"`
+	Recipe  string           `json:"recipe,omitempty"` // api structures of the codec-configuration family (work.FromRecipe)
 	Bytes   string           `json:"encoded_b64,omitempty"`
 }
 
@@ -100,6 +101,12 @@ func runHistory(c *runner.Ctx, h *genfrag.History) {
 func replay(c *runner.Ctx, raw json.RawMessage) {
 	var d detail
 	if json.Unmarshal(raw, &d) != nil {
+		return
+	}
+	if d.Recipe != "" {
+		for _, s := range work.FromRecipe(c, d.Recipe) {
+			check(c, s, nil)
+		}
 		return
 	}
 	if d.History != nil {
@@ -172,7 +179,10 @@ type checker struct {
 }
 
 func (k *checker) det() detail {
-	d := detail{Kind: k.s.Kind, Desc: k.s.Desc, History: k.h}
+	d := detail{Kind: k.s.Kind, Desc: k.s.Desc, History: k.h, Recipe: k.s.Recipe}
+	if d.Recipe != "" {
+		d.History = nil // the recipe alone rebuilds the structure
+	}
 	if k.s.Input != nil {
 		d.Input = base64.StdEncoding.EncodeToString(k.s.Input)
 	}
@@ -334,7 +344,11 @@ func check(c *runner.Ctx, s work.Struct, h *genfrag.History) {
 	}
 	// size fields from the bytes alone
 	if lazy == 0 {
-		if _, err := boxwalk.Walk(k.b1); err != nil {
+		ns, err := boxwalk.Walk(k.b1)
+		if err == nil && len(k.b1) <= 4<<20 {
+			census(c, s, x, ns, k.b1)
+		}
+		if err != nil {
 			inputTiles := true
 			if s.Decoded {
 				_, e := boxwalk.Walk(s.Input)
